@@ -444,6 +444,29 @@ func c10Generate(c *mon.Ctx) {
 		}
 	}
 
+	// histories that start from EVERY pool point (O, G, -G, small multiples and their negatives, [2^255]G, ...), each in three
+	// representations, and in which a third of the steps are multiplications by the pool scalars: not left to the draw either
+	mr := c.SharedRng("mul-histories")
+
+	for i := 0; i+c10NE <= len(pool.All); i += c10NE - 1 {
+		for rep := 0; rep < 3; rep++ {
+			cs := c10GenHistory(mr, pool, 30)
+
+			for j := 0; j < c10NE; j++ {
+				pv := pool.All[i+j]
+				rs := gen.StructuredReprs(pv.P.IsInf())
+				cs.InitE[j] = mon.MkElemCase(pv, rs[(rep*7+j)%len(rs)])
+			}
+
+			// every third step becomes a multiplication of one of the initial elements
+			for k := 0; k < len(cs.Steps); k += 3 {
+				cs.Steps[k] = c10Step{Op: "e.mul", R: (k / 3) % c10NE, A: mr.Intn(c10NS)}
+			}
+
+			c.Structured(func() any { return cs })
+		}
+	}
+
 	sr := c.SharedRng("steered-histories")
 	stride := c.N(1, 1)
 
